@@ -23,8 +23,7 @@ def on_disagreement(c, binary, ln, il, ml, d):
     line, a = impl_of(ops)                      # stride 1: every state is observed
     w = rb.walk_history(cont, cmpn, ops, a)
     if w is not None:
-        kind = w[1][0].split(" ")[0:3]
-        sig = "C02:%s:invalid:%s" % (cont, "-".join(kind))
+        sig = "C02:%s:invalid-tree" % cont                   # coarse: container + verdict
         if any(len(v) > 2 and v[2] == sig for v in c.violations) or len(c.violations) >= 6:
             return
         trunc = ops[:w[0] + 1]
